@@ -244,6 +244,29 @@ func main() {
 	}
 	addBool("sweep_unregisters_by_coefficient", sweepDeletes, "the recycle sweep deletes from tablesByCoefficient (by the reset coefficient)")
 
+	// ---- structural facts: the compaction worker (C20, cluster level)
+	dcompGo := parse("internal/dmap/compaction.go")
+	doComp := funcDecl(dcompGo, "Service", "doCompaction")
+	callComp := funcDecl(dcompGo, "Service", "callCompactionOnFragment")
+	workerOK := false
+	if doComp != nil && callComp != nil {
+		body := strings.Join(strings.Fields(src(doComp)), " ")
+		both := strings.Contains(body, "s.primary.PartitionByID(partID)") && strings.Contains(body, "s.backup.PartitionByID(partID)") &&
+			strings.Count(body, "compaction(") >= 2 && strings.Contains(body, "return s.callCompactionOnFragment(f)")
+		// callCompactionOnFragment: an unconditional for loop around f.Compaction() that leaves with true on done / error
+		loop := false
+		for _, st := range callComp.Body.List {
+			if fs, ok := st.(*ast.ForStmt); ok && fs.Cond == nil {
+				t := strings.Join(strings.Fields(src(fs.Body)), " ")
+				loop = strings.Contains(t, "done, err := f.Compaction()") && strings.Contains(t, "if done { return true }") &&
+					!strings.Contains(t, "break")
+			}
+		}
+		workerOK = both && loop
+	}
+	addBool("compaction_worker_runs_primary_and_backup_until_done", workerOK,
+		"doCompaction runs callCompactionOnFragment on every dmap fragment of the primary and of the backup partition; that function calls f.Compaction() until it answers done")
+
 	// ---- structural facts: request guard (C05)
 	handlerGo := parse("internal/server/handler.go")
 	serve := funcDecl(handlerGo, "Handler", "ServeRESP")
